@@ -2,7 +2,7 @@
    and instances showing that the hypotheses of the C05 theorems are satisfiable. *)
 From Coq Require Import ZArith List Bool Lia.
 From VV Require Import lib.PyInt model.Alloc proofs.AllocProofs proofs.AllocGreedyProofs proofs.AllocLinearProofs
-  proofs.AllocHillProofs proofs.AllocHillSearchProofs.
+  proofs.AllocHillProofs proofs.AllocHillSearchProofs proofs.AllocDispatchProofs.
 Import ListNotations.
 Open Scope Z_scope.
 
@@ -184,4 +184,14 @@ Proof.
     repeat (destruct H1 as [<-|H1]; [repeat (destruct H2 as [<-|H2]; [try reflexivity; exfalso; destruct L as [[L1 L2]|L]; cbn in *; lia|]); destruct H2|]).
     destruct H1.
   - vm_compute. reflexivity.
+Qed.
+
+(* the dispatcher with LinearAlloc and a requested alignment of 128 on the four ranges above (alignments 16, 64, 32, 128
+   all divide 128): every address is a multiple of 128 *)
+Example allocate_example :
+  Forall (d_wf 128) ex_lrs /\
+  allocate (list Z) next_list 1 128 ex_lrs None 0 [] = ByIndex (Ok ([0; 128; 256; 384], 512)).
+Proof.
+  split; [|vm_compute; reflexivity].
+  repeat constructor; cbn; try lia; [exists 8 | exists 2 | exists 4 | exists 1]; lia.
 Qed.
